@@ -126,6 +126,14 @@ const SCALARS: &[char] = &[
 pub fn text_of_len(src: &mut Src, len: usize) -> String {
     let mut s = String::with_capacity(len);
     let ascii_only = src.chance(1, 3);
+    // one text in eight ends in a code point (sequence) that text processing likes to treat
+    // specially: joiners, variation selectors, direction marks, BOM, combining marks, the WebAuthn
+    // language / direction tag suffix (U+E0001, tag characters, terminator), NUL, space
+    let tail: String = if !ascii_only && src.chance(1, 8) { special_tail(src) } else { String::new() };
+    let len_body = if tail.len() <= len { len - tail.len() } else { len };
+    let tail = if tail.len() <= len { tail } else { String::new() };
+    let full_len = len;
+    let len = len_body;
     while s.len() < len {
         let left = len - s.len();
         let w = src.word();
@@ -148,17 +156,48 @@ pub fn text_of_len(src: &mut Src, len: usize) -> String {
             s.push((b'a' + (left as u8 % 26)) as char);
         }
     }
+    s.push_str(&tail);
+    debug_assert_eq!(s.len(), full_len);
     s
+}
+
+/// Trailing code point sequences that normalising / sanitising code tends to single out.
+pub fn special_tail(src: &mut Src) -> String {
+    const SINGLE: [char; 16] = [
+        '\u{200d}', '\u{200c}', '\u{fe0f}', '\u{fe0e}', '\u{200e}', '\u{200f}', '\u{feff}', '\u{301}', '\u{e007f}', '\u{e0001}', '\u{0}', ' ', '\u{a0}',
+        '\u{2028}', '\u{202e}', '\u{3000}',
+    ];
+    match src.below(4) {
+        0 | 1 => SINGLE[src.below(SINGLE.len())].to_string(),
+        2 => {
+            // WebAuthn L2 6.4.2: U+E0001, tag characters spelling a language, then a direction mark
+            let mut t = String::from('\u{e0001}');
+            let n = src.below(4);
+            for i in 0..n {
+                t.push(char::from_u32(0xE0061 + ((i as u32 * 7 + 4) % 26)).unwrap());
+            }
+            t.push(*src.pick(&['\u{200e}', '\u{200f}', '\u{e007f}']));
+            t
+        }
+        _ => {
+            // an emoji ZWJ sequence cut after the joiner
+            let mut t = String::from('\u{1f468}');
+            t.push('\u{200d}');
+            t
+        }
+    }
 }
 
 /// Pick a length from the boundary lattice {0,1,cap-1,cap} or uniformly in 0..=cap.
 pub fn lattice_len(src: &mut Src, cap: usize) -> usize {
-    let k = src.below(7);
+    let k = src.below(8);
     match k {
         0 => 0,
         1 => 1.min(cap),
         2 => cap.saturating_sub(1),
         3 => cap,
+        // lengths at which the CBOR head of the string changes width, and sizes that protocols use
+        4 => (*src.pick(&[23usize, 24, 255, 256, 16, 32, 64, 65535, 65536])).min(cap),
         _ => src.range(0, cap),
     }
 }
